@@ -82,7 +82,7 @@ func (d *DB) commit(kind string, ops int, do func() error) error {
 	d.Log = append(d.Log, c)
 	hook := d.OnWrite
 	d.mu.Unlock()
-	if hook != nil && err == nil || hook != nil && fail {
+	if hook != nil && (err == nil || fail) {
 		hook(c)
 	}
 	return err
